@@ -108,7 +108,14 @@ pub fn segments(total: &[u8], mode: u8, cuts: &[u16]) -> Vec<Vec<u8>> {
     let n = total.len();
     let mut points: Vec<usize> = match mode % 4 {
         0 => vec![],
-        1 => (1..n).collect(),
+        1 => {
+            // one byte per segment; for long streams only the first 1500 and the last 500 bytes
+            if n <= 3000 {
+                (1..n).collect()
+            } else {
+                (1..1500).chain(n - 500..n).collect()
+            }
+        }
         2 => cuts.iter().map(|c| (*c as usize * (n + 1)) >> 16).collect(),
         _ => {
             let mut p = Vec::new();
